@@ -541,3 +541,78 @@ def t_load_pairing_shared(world):
 _t_lps = tasks
 def tasks(tier):
     return _t_lps(tier) + [('load_pairing', t_load_pairing_shared)]
+
+
+# ---------------------------------------------------------------- C09.j: the price helpers used by liquidate / receivership withdraw / bankruptcy go through the confidence-checked getters with the bank's own limits
+def t_fetch_helpers(world, prefix='C09.j'):
+    from specs.handlers import short
+    obs = []
+    OPT = ENUMS['OraclePriceType']; BIAS = ENUMS['PriceBias']
+    for fname, getter, biased in (('fetch_asset_price_for_bank_low_bias', r'::get_price_of_type$', True), ('fetch_unbiased_price_for_bank', r'::get_price_and_confidence_of_type$', False)):
+        eng = world.engine(opaque=[r'oracle_accounts_for_bank$', r'try_from_bank', r'get_price_of_type', r'get_price_and_confidence_of_type', r'OraclePriceFeedAdapter'], merge=False, max_paths=2000)
+        f = world.fn(r'(^|::)%s$' % fname)
+        args = [eng.ex.fresh(ty, n) for n, (_, ty) in zip(['bank_key', 'bank', 'clock', 'ais'], f.params)]
+        res = eng.run_fn(f, args)
+        ob = Ob(f'{prefix}.{fname}', f'{fname}: the oracle accounts are located for THIS bank, the adapter is built from this bank, those accounts and the caller\'s clock, and the price comes from the confidence-checked getter '
+                f'({"get_price_of_type(RealTime, Some(Low), bank.config.oracle_max_confidence)" if biased else "get_price_and_confidence_of_type(RealTime, bank.config.oracle_max_confidence)"}); every error propagated',
+                [f.name], 'loop-free; adapter and getters opaque (C09.b/d decide them); every accepting path'); ob.paths = len(res)
+        omc = fsym('bank*', 'Bank', 'config.oracle_max_confidence')
+        for r, okc in ok_paths(res):
+            if ob.witness(eng, r, [okc]) is False: continue
+            Ev = [e for e in flat_events(r['events']) if e[0] == 'call']
+            oa = [e for e in Ev if re.search(r'oracle_accounts_for_bank$', e[1])]; tb = [e for e in Ev if re.search(r'try_from_bank$', e[1])]
+            gp = [e for e in Ev if re.search(r'::get_price\w*$', e[1])]
+            if len(oa) != 1 or len(tb) != 1 or len(gp) != 1:
+                ob.structural(f'calls on an accepting path: {[short(e[1]) for e in Ev]}', 'fetch-shape'); continue
+            ob.queries += 1
+            if re.search(getter, gp[0][1]): ob.unsat += 1
+            else: ob.sat += 1; ob.cex.append({'ob': ob.oid, 'label': f'the price is read through {short(gp[0][1])} (the confidence limit is not enforced on this path)', 'role': 'fetch-getter', 'model': {}, 'replay': None}); continue
+            nm = lambda v: getattr(eng.deref_val(v), 'name', None)
+            ob.queries += 1
+            if nm(oa[0][2][1]) == 'bank*' and nm(tb[0][2][0]) == 'bank*' and nm(tb[0][2][2]) == 'clock*' and nm(oa[0][2][2]) == 'ais*': ob.unsat += 1
+            else: ob.sat += 1; ob.cex.append({'ob': ob.oid, 'label': 'oracle accounts / adapter are not built from this bank, the given account list and the caller\'s clock', 'role': 'fetch-wiring', 'model': {}, 'replay': None})
+            a = gp[0][2]
+            conds = [zint(oa[0][3].disc) == 0, zint(tb[0][3].disc) == 0, zint(gp[0][3].disc) == 0, zint(a[1].disc) == OPT['RealTime']]
+            if biased: conds += [zint(a[2].disc) == 1, zint(a[2].payload[1][0].disc) == BIAS['Low'], a[3].e == omc]
+            else: conds += [a[2].e == omc]
+            ob.prove(eng, r, [okc], z3.And(conds), 'real-time price' + (', low bias' if biased else '') + ', the bank\'s own max confidence; errors propagated', role='fetch-args')
+        ob.need_witness(); obs.append(ob)
+    return obs
+
+
+_t_fh = tasks
+def tasks(tier):
+    return _t_fh(tier) + [('fetch_helpers', t_fetch_helpers)]
+
+
+def t_oracle_accounts_for_bank(world, oid='C09.j.oracle_accounts_for_bank'):
+    import mirsym.engine as E
+    E.LIST_K = 4
+    eng = world.engine(opaque=[r'get_remaining_accounts_per_bank$', r'anchor_lang::'], merge=False, max_paths=5000)
+    f = world.fn(r'(^|::)oracle_accounts_for_bank$')
+    args = [eng.ex.fresh(ty, n) for n, (_, ty) in zip(['bank_key', 'bank', 'ais'], f.params)]
+    res = eng.run_fn(f, args)
+    ob = Ob(oid, 'oracle_accounts_for_bank: the bank is located by ITS key (first match), and the oracle accounts returned are the n-1 accounts right after it (n = accounts per bank), which must exist',
+            [f.name], 'account list of length <= 4 (list model, closure of position() executed from its MIR); every accepting path'); ob.paths = len(res)
+    n_ok = 0
+    bk = args[0]
+    for r, okc in ok_paths(res):
+        if ob.witness(eng, r, [okc]) is False: continue
+        n_ok += 1
+        Ev = [e for e in flat_events(r['events']) if e[0] == 'call']
+        cnt = [e for e in Ev if re.search(r'get_remaining_accounts_per_bank$', e[1])]
+        sl = [e for e in Ev if re.search(r'::index$', e[1])]
+        if len(cnt) != 1 or len(sl) != 1: ob.structural('count / slice calls missing', 'locate-shape'); continue
+        n = cnt[0][3].payload[0][0].e
+        rg = eng.deref_val(sl[0][2][1]); st_, en_ = rg.fields.get('start', rg.fields.get(0)).e, rg.fields.get('end', rg.fields.get(1)).e
+        key = lambda i: z3.Int(f'ais*[{i}].0*'); ln = z3.Int('ais*.len'); bkey = eng.deref_val(bk).e
+        first = z3.Or([z3.And(st_ == i + 1, i < ln, key(i) == bkey, z3.And([key(j) != bkey for j in range(i)])) for i in range(4)])
+        ob.prove(eng, r, [okc], z3.And(first, en_ == st_ + n - 1, en_ <= ln, zint(cnt[0][3].disc) == 0), 'slice == accounts[idx+1 .. idx+n) with idx the first account whose key is the bank key; long enough; count error propagated', role='locate')
+    ob.notes.append(f'{n_ok} accepting paths')
+    ob.need_witness()
+    return [ob]
+
+
+_t_oab = tasks
+def tasks(tier):
+    return _t_oab(tier) + [('oracle_accounts_for_bank', t_oracle_accounts_for_bank)]
